@@ -828,7 +828,10 @@ func unmarshalProto(inBytes []byte, outi interface{}) error {
 		}
 	}
 	for i := range in.Link {
-		out.Link[i] = in.Link[i]
+		// an absent child is marshalled as "", and must come back as nil
+		if in.Link[i] != "" {
+			out.Link[i] = in.Link[i]
+		}
 	}
 	return nil
 }
